@@ -241,6 +241,7 @@ func (a address) assign(k bool, value int8, valueType reflect.Type) {
 		a.em.fb.emitNew(a.addressedType, -a.op1)
 		a.em.changeRegister(k, value, a.op1, a.targetType(), a.addressedType)
 	case assignPtrIndirection:
+		a.em.fb.addPosAndPath(a.pos)
 		a.em.changeRegister(k, value, -a.op1, a.targetType(), a.addressedType)
 	case assignLocalSliceIndex:
 		a.em.fb.emitSetSlice(k, a.op1, value, a.op2, a.pos, valueType.Kind())
@@ -320,6 +321,7 @@ func (em *emitter) emitAssignmentOperation(addr address, rh ast.Expression) {
 		assignNonLocalSliceIndex:
 		em.fb.emitIndex(false, addr.op1, addr.op2, c, addrTyp, addr.pos, false)
 	case assignPtrIndirection:
+		em.fb.addPosAndPath(addr.pos)
 		em.changeRegister(false, -addr.op1, c, typ, typ)
 	case assignLocalStructSelector,
 		assignNonLocalStructSelector:
